@@ -15,6 +15,8 @@ Rep(x, k) == [i \in 1..k |-> x]
 Call(e, ok, k) == [t |-> "call", e |-> e, ok |-> ok, k |-> k, d |-> 0]
 Adv(d) == [t |-> "adv", e |-> 0, ok |-> FALSE, k |-> "", d |-> d]
 Chk == [t |-> "check", e |-> 0, ok |-> FALSE, k |-> "", d |-> 0]
+Sel(e, k) == [t |-> "sel", e |-> e, ok |-> FALSE, k |-> k, d |-> 0]       \* the two halves of a call, so that a check can fall between them
+Done(ok) == [t |-> "done", e |-> 0, ok |-> ok, k |-> "", d |-> 0]
 Wait(w) == Rep(Adv(30), w \div 30) \o Rep(Adv(5), (w % 30) \div 5)      \* w seconds, in the steps the model knows
 Oks(e, k) == Rep(Call(e, TRUE, "rr"), k)
 Fails(e, m) == Rep(Call(e, FALSE, "rr"), m)
@@ -41,7 +43,12 @@ F5 == { Oks(1, 1) \o Oks(2, 1) \o Oks(3, 1) \o Fails(b, m) \o Wait(a) \o <<Chk>>
         \o [i \in 1..6 |-> Call(((b + i) % 3) + 1, TRUE, KindOf(i))] \o Wait(30) \o <<Chk, Call(b, o1, "rr")>>
         \o [i \in 1..6 |-> Call((i % 3) + 1, TRUE, KindOf(i + 1))] \o <<Chk>>
         : b \in 1..3, m \in {1, 2, 4, 5}, a \in {0, 5}, o1 \in BOOLEAN }
-Plans == CASE Family = "F1" -> F1 [] Family = "F2" -> F2 [] Family = "F3" -> F3 [] Family = "F4" -> F4 [] Family = "F5" -> F5
+\* F6 (N = 1, 2; Overlap): the admission of endpoint 1 waits w more seconds; a status check runs DURING the probe call;
+\*             the probe ends o1; another call (a probe of a healthy endpoint if it was admitted again) ends o2; it fails out again (60 s after the reset)
+F6 == { Fails(1, 2) \o <<Chk>> \o Wait(30) \o <<Chk>> \o Wait(w) \o <<Sel(1, "rr"), Chk, Done(o1), Call(1, o2, "rr"), Chk>>
+        \o Fails(1, 2) \o Wait(60) \o <<Chk, Call(1, TRUE, "mod"), Chk>>
+        : w \in {0, 30}, o1 \in BOOLEAN, o2 \in BOOLEAN }
+Plans == CASE Family = "F6" -> F6 [] Family = "F1" -> F1 [] Family = "F2" -> F2 [] Family = "F3" -> F3 [] Family = "F4" -> F4 [] Family = "F5" -> F5
 
 AllTrue == [e \in Eps |-> TRUE]
 Tok == plan[pos]
@@ -56,6 +63,13 @@ PlanNext ==
      \/ /\ Tok.t = "call" /\ sub = 1
         /\ CallDone(1, Tok.ok) /\ hist' = Append(hist, StepRec("CallDone", 1, infl[1].ep, "", Tok.ok, 0, <<>>))
         /\ sub' = 0 /\ pos' = pos + 1
+     \/ /\ Tok.t = "sel"
+        /\ LET e == IF Tok.e \in Cands THEN Tok.e ELSE Least(Cands)
+           IN Select(1, e, Tok.k) /\ hist' = Append(hist, StepRec("Select", 1, e, Tok.k, FALSE, 0, SetToSeq(Cands)))
+        /\ sub' = 0 /\ pos' = pos + 1
+     \/ /\ Tok.t = "done"
+        /\ CallDone(1, Tok.ok) /\ hist' = Append(hist, StepRec("CallDone", 1, infl[1].ep, "", Tok.ok, 0, <<>>))
+        /\ sub' = 0 /\ pos' = pos + 1
      \/ /\ Tok.t = "adv"
         /\ Advance(Tok.d) /\ hist' = Append(hist, StepRec("Advance", 0, 0, "", FALSE, Tok.d, <<>>))
         /\ sub' = 0 /\ pos' = pos + 1
@@ -64,5 +78,5 @@ PlanNext ==
         /\ sub' = 0 /\ pos' = pos + 1
 PlanInit == Init /\ hist = <<>> /\ plan \in Plans /\ pos = 1 /\ sub = 0
 PlanSpec == PlanInit /\ [][PlanNext]_<<vars, hist, plan, pos, sub>>
-Emit == pos <= Len(plan) \/ PrintT(ToJson([n |-> N, calls |-> 1, steps |-> hist]))
+Emit == pos <= Len(plan) \/ PrintT(ToJson([n |-> N, calls |-> 1, overlap |-> Overlap, steps |-> hist]))
 ====
